@@ -231,6 +231,30 @@ probe("closure-capture", Main(Let("x", "i32", I("i32", 5)), LetInfer("add", Lam(
 
 probe("closure-mutates", Main(Let("x", "i32", I("i32", 10)), LetInfer("f", Lam([], "void", Set(V("x"), I("i32", 42)))), ExprS(Call("f")), Print(V("x"))), feats=("closure-mut",))
 
+# captures of PARAMETERS (a parameter lives in a value until the body writes to it; the capture must see the current value)
+probe("closure-captures-assigned-param",
+      Fn("f", [("n", "i32")], "i32", Set(V("n"), Bin("add", "i32", V("n"), I("i32", 5))), LetInfer("g", Lam([], "i32", Ret(Bin("mul", "i32", V("n"), I("i32", 2))))), Ret(Call("g"))),
+      Fn("h", [("n", "i32"), ("k", "i32")], "i32", If(Bin("gt", "i32", V("k"), I("i32", 0)), [Set(V("n"), I("i32", 40))]), LetInfer("g", Lam([("d", "i32")], "i32", Ret(Bin("add", "i32", V("n"), V("d"))))),
+         Set(V("n"), Bin("add", "i32", V("n"), I("i32", 1))), Ret(Call("g", I("i32", 1)))),
+      Main(Print(Call("f", I("i32", 1))), Print(Call("h", I("i32", 3), I("i32", 1))), Print(Call("h", I("i32", 3), I("i32", 0)))), feats=("closure-param",))
+probe("closure-captures-untouched-param",
+      Fn("f", [("n", "i32")], "i32", LetInfer("g", Lam([], "i32", Ret(Bin("mul", "i32", V("n"), I("i32", 2))))), Ret(Call("g"))),
+      Main(Print(Call("f", I("i32", 21)))), feats=("closure-param0",))
+# implicit (lossless) numeric conversions: no `as`, the value must still be converted
+probe("implicit-widening",
+      Fn("id8", [("v", "i8")], "i8", Ret(V("v"))), Fn("id16", [("v", "i16")], "i16", Ret(V("v"))), Fn("id32", [("v", "i32")], "i32", Ret(V("v"))), Fn("idu8", [("v", "u8")], "u8", Ret(V("v"))),
+      Fn("show", [("v", "i64")], "i64", Ret(Bin("add", "i64", V("v"), I("i64", 0)))), Fn("wide", [], "i64", Ret(Call("id32", I("i32", -5)))),
+      Struct("W", ("A", "i64"), ("B", "u32")),
+      Main(Let("s", "i32", I("i32", -5)), Let("a", "i64", V("s")), Print(V("a")),
+           Let("b", "i32", Call("id8", I("i8", -5))), Print(V("b")), Let("c", "i64", Call("id8", I("i8", -128))), Print(V("c")),
+           Print(Call("show", Call("id32", I("i32", -2147483648)))), Print(Call("wide")),
+           Let("u", "u32", Call("idu8", I("u8", 250))), Print(V("u")), Let("x", "i64", Call("idu8", I("u8", 200))), Print(V("x")),
+           Let("w", TS("W"), SLit("W", A=Call("id16", I("i16", -11)), B=Call("idu8", I("u8", 251)))), Print(Fld(V("w"), "A")), Print(Fld(V("w"), "B")),
+           Set(Fld(V("w"), "A"), Call("id16", I("i16", -7))), Print(Fld(V("w"), "A")),
+           Let("q", TA(2, "i64"), ALit(Call("id16", I("i16", -3)), Call("id8", I("i8", 4)))), Print(Idx(V("q"), I("i32", 0))),
+           Set(Idx(V("q"), I("i32", 1)), Call("id8", I("i8", -9))), Print(Idx(V("q"), I("i32", 1)))), feats=("implicit-widening",))
+probe("ref-ref-arith", Fn("add", [("a", TRef("i32")), ("b", TRef("i32"))], "i32", Ret(Bin("add", "i32", V("a"), V("b")))),
+      Main(Let("x", "i32", I("i32", 5)), Let("y", "i32", I("i32", 6)), Print(Call("add", Ref(V("x")), Ref(V("y"))))), feats=("ref-ref-arith",))
 probe("result-catch", Fn("safediv", [("a", "i32"), ("b", "i32")], TR("str", "i32"), If(Bin("eq", "i32", V("b"), I("i32", 0)), [RetErr(Str("div by zero"))]), Ret(Bin("div", "i32", V("a"), V("b")))),
       Main(Let("m1", "i32", I("i32", -1)), Let("ok", "i32", Catch(Call("safediv", I("i32", 10), I("i32", 2)), V("m1"))), Print(V("ok")),
            Let("bad", "i32", Catch(Call("safediv", I("i32", 10), I("i32", 0)), V("m1"))), Print(V("bad")),
